@@ -122,6 +122,15 @@ func sortSliceModel(stable bool) modelFn {
 		}
 		// the comparator itself must be safe on every pair of valid indices
 		x.safeOnIndices(st, fr, in, lessV, n, 2)
+		pureOK := x.tryPure(func() { mk(st)("0", "0") })
+		if !pureOK {
+			// the comparator is not a loop-free pure function: only the permutation is known
+			x.note("a sort comparator that is not loop-free is not evaluated: the result is only known to be a permutation of the input (" + posStr(x.fset, in.Pos()) + ")")
+			x.frameCheck(st, fr, arr, in)
+			x.permute(st, et, arr, off, n)
+			k(st, nil)
+			return
+		}
 		x.strictWeakOrder(st, fr, in, n, mk(st), "sort comparator")
 		x.frameCheck(st, fr, arr, in)
 		pi, _, _ := x.permute(st, et, arr, off, n)
@@ -173,3 +182,20 @@ func sortSearchModel(x *Exec, st *State, fr *Frame, in ssa.Instruction, fn *ssa.
 }
 
 var _ = fmt.Sprint
+
+// tryPure runs f and reports whether it completed without hitting an unsupported construct.
+func (x *Exec) tryPure(f func()) (ok bool) {
+	pe, p, so := x.pureEval, x.pure, x.safetyOn
+	defer func() {
+		if r := recover(); r != nil {
+			if _, isU := r.(unsupported); isU {
+				x.pureEval, x.pure, x.safetyOn = pe, p, so
+				ok = false
+				return
+			}
+			panic(r)
+		}
+	}()
+	f()
+	return true
+}
